@@ -32,7 +32,7 @@
 //!   LDC) and far-out values; a marker instruction (MOVI) is written to the fetched word
 //!   wherever memory is allocated.
 //!  Part 3 "prog" (programs): all programs of length <= k (3 quick / 4 thorough) over a
-//!   26-letter alphabet of loops, skips, conditional jumps, three JAL subroutines, CALL
+//!   27-letter alphabet of loops, skips, conditional jumps, three JAL subroutines, CALL
 //!   into a contract that itself loops/jumps/links, LDC + jump into the loaded code, run
 //!   step by step (at most MAX_STEPS steps) under a control-flow reference interpreter.
 //!
@@ -40,8 +40,12 @@
 //!   JI: $is+imm*4 | JNEI: $rA!=$rB ? $is+imm*4 | JNZI: $rA!=0 ? $is+imm*4 |
 //!   JMP: $is+$rA*4 | JNE: $rA!=$rB ? $is+$rC*4 | JMPF/JMPB: $pc±($rA+imm+1)*4 |
 //!   JNZF/JNZB: $rA!=0 ? $pc±($rB+imm+1)*4 | JNEF/JNEB: $rA!=$rB ? $pc±($rC+imm+1)*4 |
-//!   JAL: $rA=$pc+4 unless $rA is $zero, $pc=$rB+imm*4; reserved $rA other than $zero
-//!   => ReservedRegisterNotWritable.
+//!   JAL: $rA=$pc+4 unless $rA is $zero, THEN $pc=$rB+imm*4; reserved $rA other than $zero
+//!   => ReservedRegisterNotWritable. The two JAL assignments are sequential: the Fuel
+//!   specification gives the operation as `$rA = $pc + 4; $pc = $rB + imm * 4;` and the
+//!   opcode doc comment in fuel-asm reads "Store return address and jump to an absolute
+//!   address" (store first). So `jal r, r, imm` with a writable r lands at ($pc+4)+imm*4
+//!   (enforced; layouts (0x10,0x10) and (0x3f,0x3f) x ALL imm12, letter `jal.self`).
 //!   Taken, 0 <= target <= MEM-4: Proceed, $pc == target, link stored, every other
 //!   register (except $cgas/$ggas) unchanged. Taken, target < 0 or >= MEM: panic
 //!   MemoryOverflow. MEM-3..MEM-1: don't-care (either). Untaken: Proceed, $pc+4, all
@@ -225,8 +229,7 @@ impl Jump {
 
 struct JRef {
     taken: bool,
-    /// admissible targets as mathematical integers (the second one only for the JAL
-    /// link==target aliasing don't-care)
+    /// admissible targets as mathematical integers (currently always exactly one)
     targets: [Option<i128>; 2],
     /// JAL: writable register that must receive $pc + 4
     link: Option<usize>,
@@ -262,10 +265,10 @@ fn jump_ref(j: &Jump, pre: &[u64; REGS]) -> JRef {
             } else if a < FIRST_WRITABLE {
                 JRef { taken: true, targets: [Some(t), None], link: None, reserved: true }
             } else {
-                // link register == target register: whether the target uses the old or
-                // the freshly stored value is not pinned by the documentation
-                let alt = if a == b { Some(pc + 4 + imm * 4) } else { None };
-                JRef { taken: true, targets: [Some(t), alt], link: Some(a as usize), reserved: false }
+                // the assignments are sequential (`$rA = $pc + 4; $pc = $rB + imm * 4`):
+                // with link register == target register the target uses the stored value
+                let t = if a == b { pc + 4 + imm * 4 } else { t };
+                JRef { taken: true, targets: [Some(t), None], link: Some(a as usize), reserved: false }
             }
         }
     }
@@ -784,13 +787,13 @@ const L_JAL: [(u8, u8); 10] = [
     (0x10, 0x11),
     (0x3f, 0x20),
     (0x00, 0x11),
-    (0x10, 0x10),
+    (0x10, 0x10), // link == target
     (0x10, 0x03),
+    (0x3f, 0x3f), // link == target
     (0x00, 0x03),
     (0x10, 0x0c),
     (0x10, 0x00),
     (0x00, 0x04),
-    (0x3f, 0x3f),
 ];
 
 fn mk(place: usize, op: Op, a: u8, b: u8, c: u8, imm: u32) -> Case {
@@ -1303,6 +1306,7 @@ fn letters() -> Vec<progkit::Letter> {
         letter("jal.loaded", vec![op::jal(0x11, 0x1c, 0)]),
         letter("cfei", vec![op::cfei(8)]),
         letter("jal.pc", vec![op::jal(z, RegId::PC, 2)]),
+        letter("jal.self", vec![op::jal(0x11, 0x11, 1)]), // link == target: lands at ($pc+4)+4
         letter("ret", vec![op::ret(one)]),
     ]
 }
@@ -1522,7 +1526,7 @@ fn part3(ctx: &Ctx) {
         }),
     );
     // written-out samples
-    for names in [vec!["dec", "jnzb.1"], vec!["jal.sub2", "inc"], vec!["ldc.B", "jal.loaded"], vec!["cfei", "jal.loaded"]] {
+    for names in [vec!["dec", "jnzb.1"], vec!["jal.self", "inc", "noop"], vec!["ldc.B", "jal.loaded"], vec!["cfei", "jal.loaded"]] {
         let seq: Vec<u64> = names.iter().map(|n| alpha.iter().position(|l| l.name == *n).expect("letter") as u64).collect();
         let body: Vec<Instruction> = seq.iter().flat_map(|i| alpha[*i as usize].ins.iter().copied()).collect();
         let r = run_program(&w, &body, &mut ProgStats::default());
@@ -1627,6 +1631,7 @@ fn explore(ctx: &Ctx) {
     ctx.assume("$cgas/$ggas are not part of this property (C26)");
     ctx.assume("raw instruction words are built/decoded from the documented field layout (opcode byte, 6-bit register ids, imm06/12/18/24 in the low bits)");
     ctx.assume("$is and $pc take the values they really have at the placements (below MEM, word aligned); register operands and immediates are unrestricted");
+    ctx.assume("JAL is sequential as in the specification's operation listing `$rA = $pc + 4; $pc = $rB + imm * 4` (fuel-asm doc: 'Store return address and jump to an absolute address'): with link register == target register (writable) the target is ($pc+4) + imm*4; the repository's own tests never use that form");
     ctx.assume("target formulas: JumpMode doc comments of flow.rs / opcode docs of fuel-asm; JNE compares its first two registers and jumps to the third (as exercised by the repository tests; the argument NAMES in fuel-asm say otherwise)");
     ctx.set(
         "dont_care",
@@ -1634,7 +1639,6 @@ fn explore(ctx: &Ctx) {
             "$cgas and $ggas",
             "register contents (including $pc and a JAL link register already written) after any panic",
             "taken jump whose target is MEM-3..MEM-1 (address inside memory, instruction not): land or MemoryOverflow",
-            "JAL with link register == target register (writable): target from the old or from the freshly stored value",
             "JAL with reserved link register AND target outside memory: either ReservedRegisterNotWritable or MemoryOverflow",
             "fetch outside [$is,$ssp) from bytes that are not allocated memory: MemoryNotExecutable, MemoryOverflow or UninitalizedMemoryAccess",
             "fetch at an unaligned address inside [$is,$ssp) (anything but a host panic)",
@@ -1669,6 +1673,7 @@ fn explore(ctx: &Ctx) {
     let mid = 1;
     let p = &places[mid];
     let samples = [
+        mk(mid, Op::JAL, 0x10, 0x10, 0, 3).set(0x10, p.is),
         mk(mid, Op::JMPB, 0x10, 0, 0, 0).set(0x10, p.pc / 4 - 1),
         mk(mid, Op::JMPB, 0x10, 0, 0, 0).set(0x10, p.pc / 4),
         mk(mid, Op::JMP, 0x10, 0, 0, 0).set(0x10, (MEM - p.is) / 4 - 1),
